@@ -285,6 +285,29 @@ func (c *C14Case) Run() string {
 	} else if c.A.Mask != nil && c.Format == "gob" {
 		return desc + ": the mask was lost"
 	}
+	// the decoded tensor is consistent in itself: observers that trust its flags rather than its strides
+	// (whole-tensor views, cuts, clones, materialisation) and reductions along every axis see the same array
+	if c.A.Mask == nil && len(exp.Shape) > 0 && dec.Dtype() == d.T {
+		if m := derivedProbe(dec, exp); m != "" {
+			return desc + ": the decoded tensor reads correctly element by element, but " + m
+		}
+		if d.IsNum() && !d.IsComplex() {
+			for ax := range exp.Shape {
+				var sum tensor.Tensor
+				var serr error
+				if p := try(func() { sum, serr = dec.Sum(ax) }); p != "" {
+					return desc + fmt.Sprintf(": Sum(%d) of the decoded tensor panicked: %s", ax, p)
+				}
+				if serr != nil {
+					continue
+				}
+				ws := exp.ReduceAxes([]int{ax}, foldFor("Sum"))
+				if m := compareAt(sum, ws, eqVal); m != "" {
+					return desc + fmt.Sprintf(": the decoded tensor reads correctly element by element, but its Sum(%d): %s", ax, m)
+				}
+			}
+		}
+	}
 	// usability: the decoded tensor behaves like the array it reads as
 	if d.IsNum() && dec.Dtype() == d.T && len(exp.E) >= 1 && len(exp.Shape) > 0 && (c.A.Mask == nil) {
 		onesArr := Arr{DT: d, Shape: exp.Shape, E: make([]interface{}, len(exp.E))}
@@ -378,7 +401,7 @@ func (c *C14Case) Run() string {
 	return ""
 }
 
-var c14Layouts = []string{"contig", "cmraw", "cmconv", "lazyT", "sliced", "stepsliced", "physT"}
+var c14Layouts = []string{"contig", "cmraw", "cmconv", "lazyT", "sliced", "stepsliced", "physT", "clonedview"}
 
 func genC14(rt *rapid.T, format string, d DT, lk string, masked bool) *C14Case {
 	var shape []int
